@@ -315,6 +315,9 @@ class SymBlock:
         self.origin = origin
         self.label = label
         self.fields = fields
+        # aggregation provenance (reductions): None, or dict(src=<array name>, box=((lo, hi) per axis of src), cond=[z3 terms])
+        # — the block aggregates exactly the elements of that box of `src`, each once, provided every term of cond holds
+        self.agg = None
         # memory: a view shares the buffer of its base; anything else is a fresh allocation (reported to the live-memory
         # meter of the path, if one is switched on)
         self.base = view_of.base if view_of is not None else self
@@ -626,7 +629,20 @@ class _NXP:
                         return a.origin(tuple(l - off if i == ax else l for i, l in enumerate(loc)))
                     off = off + a.shape[ax]
 
-        return SymBlock(shape, arrays[0].dtype, origin, "concat")
+        out = SymBlock(shape, arrays[0].dtype, origin, "concat")
+        aggs = [getattr(a, "agg", None) for a in arrays]
+        if all(g is not None for g in aggs) and len({g["src"] for g in aggs}) == 1 and all(len(g["box"]) == nd for g in aggs):
+            # concatenating aggregates along `ax`: the boxes must be adjacent along ax (in order) and equal elsewhere
+            cond = [t for g in aggs for t in g["cond"]]
+            for g1, g2 in zip(aggs, aggs[1:]):
+                for i in range(nd):
+                    if i == ax:
+                        cond.append(tz(g1["box"][i][1]) == tz(g2["box"][i][0]))
+                    else:
+                        cond.append(z3.And(tz(g1["box"][i][0]) == tz(g2["box"][i][0]), tz(g1["box"][i][1]) == tz(g2["box"][i][1])))
+            box = tuple((aggs[0]["box"][i][0], aggs[-1]["box"][i][1]) if i == ax else aggs[0]["box"][i] for i in range(nd))
+            out.agg = dict(src=aggs[0]["src"], box=box, cond=cond)
+        return out
 
     def flip(self, x, axis=None):
         self._note("flip")
